@@ -94,6 +94,10 @@ LAWS = [
     ("k * x / 4000000000.0", "must"),
     ("k * x * 1e-12", "must"),
     ("k * x * True", "refuse"),
+    # chains whose links use different operators, with branches that differ AT the boundary x == y / x == 0.5
+    ("k * x if 0.5 <= x < y else 2.0 * k * y + 1.0", "must"),
+    ("k if y > x >= 0.5 else 3.0 * k + x", "must"),
+    ("k * x if 0.25 < x <= y else -k", "must"),
     ("k * math.sqrt((x - y) ** 2)", "may"),
     ("k * ((x - y) ** 2) ** 0.25 + x", "may"),
     # two-argument functions whose MathML namesakes mean something else (rem is the floored modulo, ...)
